@@ -1289,9 +1289,18 @@ def cv_bbox_expect(op, gcls, ucls, kind):
 CV_SAME_AS = {"xr.crop[fn]": "xr.crop", "xr.mask[fn]": "xr.mask"}  # function and accessor entry points
 
 
-def gen_convert():
+CV_GRID_TAGS_QUICK = ("EPSG:32633", "wkt2:32633", "proj:A+e", "proj:B", "stale:32633")
+
+
+def gen_convert(tier):
+    def gen():
+        yield from _gen_convert(CV_GRID_TAGS_QUICK if tier == "quick" else CV_GRID_TAGS)
+    return gen
+
+
+def _gen_convert(grid_tags):
     for op in CV_OPS:
-        for gt in CV_GRID_TAGS:
+        for gt in grid_tags:
             for qt in CV_Q_TAGS:
                 for kind in CV_PIX:
                     yield (op, gt, qt, kind)
@@ -1437,7 +1446,7 @@ def slices(tier):
                  "re-using unchanged operand instances, with and without reading lazy properties first", setup=reset),
         e1.Slice("entry-points", gen_alias, run_alias,
                  "operator / method / function spellings of one operation answer alike (value, result CRS, exception)", setup=reset),
-        e1.Slice("convert", gen_convert, run_convert,
+        e1.Slice("convert", gen_convert(tier), run_convert,
                  "converting operations (GeoboxTiles.tiles / range_from_bbox, GeoBox.enclosing / project / from_geopolygon(crs=), "
                  "GridSpec.tiles_from_geopolygon, xarray crop / mask / rasterize through accessor and function) with the region "
                  "given in another CRS or another spelling: same answer as for the region in the grid's own CRS", setup=reset),
@@ -1470,7 +1479,7 @@ def main(ctx):
         "warm": "earlier call on operands with the same coordinates under each reduced tag pair, then each reduced tag pair; "
                 "unchanged operands are the same instances; lazy-read variant after 3 warm pairs",
         "entry_point_aliases": [list(a) for a in ALIASES],
-        "convert_grid": f"{CV_N}x{CV_N} px of {CV_RES} m at ({CV_X0}, {CV_Y1}), tiles of {CV_TILE} px; grid tags {list(CV_GRID_TAGS)}; "
+        "convert_grid": f"{CV_N}x{CV_N} px of {CV_RES} m at ({CV_X0}, {CV_Y1}), tiles of {CV_TILE} px; grid tags {list(CV_GRID_TAGS)} (quick: {list(CV_GRID_TAGS_QUICK)}); "
                         f"region tags {list(CV_Q_TAGS)}; regions (pixel coordinates) {CV_PIX}",
         "convert_operations": list(CV_OPS),
         "crowded (thorough)": f"{len(CROWD_CODES) + 20} further live CRS objects",
